@@ -39,8 +39,10 @@ type engineB struct {
 
 var engineBProps = map[string]*engineB{
 	"C04": {design: "4/C04"},
+	"C06": {design: "4/C06"},
 	"C10": {design: "4/C10"},
 	"C11": {design: "4/C11"},
+	"C12": {design: "4/C12"},
 	"C17": {design: "4/C17"},
 }
 
@@ -184,6 +186,64 @@ func genProbe(root, work string) error {
 	return os.Rename(filepath.Join(gdir, "probe_stub_gen.go"), filepath.Join(root, "scenarios/probe/probe_stub_gen.go"))
 }
 
+// minimalOnly implements subsumption for fingerprints of the form
+// prefix{a+b+c}: among violations with the same prefix only those whose
+// multiset of elements is minimal are kept (a longer hostile sequence that
+// contains a failing shorter one is the same finding).
+func minimalOnly(vs []*explore.Violation) []*explore.Violation {
+	type parsed struct {
+		v      *explore.Violation
+		prefix string
+		elems  map[string]int
+		n      int
+	}
+	var ps []parsed
+	for _, v := range vs {
+		i := strings.Index(v.Fingerprint, "{")
+		if i < 0 || !strings.HasSuffix(v.Fingerprint, "}") {
+			ps = append(ps, parsed{v: v})
+			continue
+		}
+		p := parsed{v: v, prefix: v.Fingerprint[:i], elems: map[string]int{}}
+		body := v.Fingerprint[i+1 : len(v.Fingerprint)-1]
+		if body != "" {
+			for _, e := range strings.Split(body, "+") {
+				p.elems[e]++
+				p.n++
+			}
+		}
+		ps = append(ps, p)
+	}
+	sub := func(a, b parsed) bool { // a strictly included in b
+		if a.n >= b.n {
+			return false
+		}
+		for e, n := range a.elems {
+			if b.elems[e] < n {
+				return false
+			}
+		}
+		return true
+	}
+	var out []*explore.Violation
+	for i, p := range ps {
+		keep := true
+		if p.elems != nil {
+			for j, q := range ps {
+				if i != j && q.elems != nil && sub(q, p) {
+					// any failing sub-multiset subsumes it, whatever the symptom
+					keep = false
+					break
+				}
+			}
+		}
+		if keep {
+			out = append(out, p.v)
+		}
+	}
+	return out
+}
+
 type scenInfo struct {
 	Name            string
 	Quick, Thorough int
@@ -264,11 +324,17 @@ func runB(root, id string, eb *engineB) int {
 		bnd  int
 	}
 	var results []scenRes
+	var global []*explore.Violation
+	globalDoc := map[*explore.Violation]string{}
+	globalScen := map[*explore.Violation]string{}
 	remaining := budget
 	for i, sc := range scens {
 		bound := sc.Quick
 		if tier == "thorough" {
 			bound = sc.Thorough
+		}
+		if bound < 0 {
+			continue // not part of this tier
 		}
 		deadline := per
 		// unused budget of earlier scenarios is passed on
@@ -327,6 +393,14 @@ func runB(root, id string, eb *engineB) int {
 			chk.EngineError("%s: %s", sc.Name, e)
 		}
 		for _, v := range m.Violations {
+			if strings.HasPrefix(v.Fingerprint, "=") {
+				// property-wide fingerprint: the same root cause shows up in
+				// several scenarios; reported after subsumption over all of them
+				global = append(global, v)
+				globalDoc[v] = sc.Doc
+				globalScen[v] = sc.Name
+				continue
+			}
 			fp := report.FPEscape(sc.Name + "/" + v.Fingerprint)
 			chk.Report(fp, fmt.Sprintf("%s: %s (%d executions, first with %d deviations)", sc.Doc, v.Detail, v.Count, v.Deviations),
 				map[string]interface{}{"property": id, "scenario": sc.Name, "schedule": v.Schedule, "clause": v.Clause,
@@ -341,6 +415,12 @@ func runB(root, id string, eb *engineB) int {
 		}
 		fmt.Printf("  %-34s bound=%d completed=%d exhaustive=%v executions=%d outcomes=%d violations=%d wall=%.1fs\n",
 			sc.Name, bound, m.CompletedBound, m.Exhaustive, m.Executions, len(m.Outcomes), len(m.Violations), m.WallS)
+	}
+	for _, v := range minimalOnly(global) {
+		fp := report.FPEscape(v.Fingerprint[1:])
+		chk.Report(fp, fmt.Sprintf("%s: %s (%d executions, first with %d deviations)", globalDoc[v], v.Detail, v.Count, v.Deviations),
+			map[string]interface{}{"property": id, "scenario": globalScen[v], "schedule": v.Schedule, "clause": v.Clause,
+				"detail": v.Detail, "outcome": v.Outcome, "crash": v.Crash, "blocked": v.Blocked})
 	}
 	// evidence
 	var evals, trans, valid, states int
